@@ -102,65 +102,107 @@ impl Prop for C03 {
   fn check(&self, case: &TreeCase) -> CheckResult {
     let spec = &case.spec;
     let text = model_text(spec);
-    let (pos, _) = positions(&text);
     let mut nt = false;
     let mut k1 = false;
     for columns in [true, false] {
       let st = fresh_stream(spec, columns, false).map_err(|p| format!("columns={columns}: {p}"))?;
-      let (stext, sat) = st.attr();
-      if stext != text {
-        return Err(format!("columns={columns}: stream reassembles to {stext:?}, reference text is {text:?}"));
-      }
       let map = guard(|| build(spec).map(&opts(columns, false)))
         .map_err(|p| format!("columns={columns}: map(): {p}"))?;
-      let mat = attr_from_map(map.as_ref(), &text, columns)?;
-      let mappings = map.as_ref().map(|m| m.mappings().to_string());
-      if columns {
-        for i in 0..text.len() {
-          let (m, s) = (strip(&mat[i]), strip(&sat[i]));
-          if m != s {
-            return Err(format!(
-              "columns=true: byte {i} ({}:{}) of {text:?}: map() resolves to {m:?}, the covering chunk says {s:?}; mappings={mappings:?} sources={:?}",
-              pos[i].0, pos[i].1, map.as_ref().map(|m| m.sources().to_vec())
-            ));
-          }
-        }
-      } else {
-        let la = st.line_attr();
-        let mut last = 0;
-        for i in 0..text.len() {
-          let l = pos[i].0;
-          if l == last {
-            continue;
-          }
-          last = l;
-          let want = la.get(&l).map(|a| (a.0.clone(), a.2));
-          let got = mat[i].clone().map(|a| (a.0, a.2));
-          if want != got {
-            return Err(format!(
-              "columns=false: output line {l} of {text:?}: map() resolves to {got:?}, the first mapped chunk starting on that line says {want:?}; mappings={mappings:?}"
-            ));
-          }
-        }
-      }
-      // no map <=> no mapped chunk
-      if map.is_some() != st.any_mapped() {
-        if passthrough_sms(spec) && map.is_some() && !crate::known::strict() {
-          k1 = true; // known finding K1
-        } else {
-          return Err(format!(
-            "columns={columns}: map() is {} although the chunk stream has {} mapped chunk; mappings={mappings:?}",
-            if map.is_some() { "Some" } else { "None" },
-            if st.any_mapped() { "a" } else { "no" }
-          ));
-        }
-      }
+      k1 |= agree(spec, &text, &st, map.as_ref(), columns, "")?;
       nt |= mixed_line(&st)
         && spec.any(&|s| matches!(s, Spec::Replace { .. }) || matches!(s, Spec::Concat { children, .. } if children.len() >= 2));
     }
-    let mut info = CaseInfo::nt(nt);
+    // "the chunk stream an outside caller obtains from the same object": for trees that keep answers (a CachedSource
+    // somewhere, none beneath a ReplaceSource - DESIGN 1.5 rule 1) the stream and the map of ONE object are compared in
+    // every order: stream then map, the warm stream against that map, a second map against the first stream, and
+    // map first then stream.
+    let mut one_object = false;
+    if spec.any(&|s| matches!(s, Spec::Cached(_))) && !spec.cached_under_replace() {
+      one_object = true;
+      for columns in [true, false] {
+        let o = opts(columns, false);
+        let obj = build(spec);
+        let st1 = guard(|| crate::observe::stream(&*obj, &o)).map_err(|p| format!("one object, columns={columns}: stream: {p}"))?;
+        let m1 = guard(|| obj.map(&o)).map_err(|p| format!("one object, columns={columns}: map(): {p}"))?;
+        k1 |= agree(spec, &text, &st1, m1.as_ref(), columns, "one object, cold stream then map(): ")?;
+        let st2 = guard(|| crate::observe::stream(&*obj, &o)).map_err(|p| format!("one object, columns={columns}: warm stream: {p}"))?;
+        k1 |= agree(spec, &text, &st2, m1.as_ref(), columns, "one object, warm stream against the earlier map(): ")?;
+        let m2 = guard(|| obj.map(&o)).map_err(|p| format!("one object, columns={columns}: second map(): {p}"))?;
+        k1 |= agree(spec, &text, &st1, m2.as_ref(), columns, "one object, cold stream against the second map(): ")?;
+        let obj = build(spec);
+        let m0 = guard(|| obj.map(&o)).map_err(|p| format!("one object, columns={columns}: map() first: {p}"))?;
+        let st0 = guard(|| crate::observe::stream(&*obj, &o)).map_err(|p| format!("one object, columns={columns}: stream after map(): {p}"))?;
+        k1 |= agree(spec, &text, &st0, m0.as_ref(), columns, "one object, map() then stream: ")?;
+        // the other column setting asked in between must not leak into this one
+        let obj = build(spec);
+        let _ = guard(|| obj.map(&opts(!columns, false)));
+        let st3 = guard(|| crate::observe::stream(&*obj, &o)).map_err(|p| format!("one object, columns={columns}: stream after map(other setting): {p}"))?;
+        let m3 = guard(|| obj.map(&o)).map_err(|p| format!("one object, columns={columns}: map() after map(other setting): {p}"))?;
+        k1 |= agree(spec, &text, &st3, m3.as_ref(), columns, "one object, map(other column setting), stream, map(): ")?;
+      }
+    }
+    let mut info = CaseInfo::nt(nt).class(one_object, "one object asked for stream and map in every order");
     info.excluded_known = k1;
     tree_classes(spec, &mut info);
     Ok(info)
   }
+}
+
+/// the normal-mode stream `st` and `map` (both answers for `columns`) attribute every byte / line of `text` alike and
+/// agree on whether anything is mapped; Ok(true) = they disagree only in the way known finding K1 describes
+fn agree(
+  spec: &Spec,
+  text: &str,
+  st: &crate::observe::Stream,
+  map: Option<&rspack_sources::SourceMap>,
+  columns: bool,
+  label: &str,
+) -> Result<bool, String> {
+  let (pos, _) = positions(text);
+  let (stext, sat) = st.attr();
+  if stext != text {
+    return Err(format!("{label}columns={columns}: stream reassembles to {stext:?}, reference text is {text:?}"));
+  }
+  let mat = attr_from_map(map, text, columns)?;
+  let mappings = map.map(|m| m.mappings().to_string());
+  if columns {
+    for i in 0..text.len() {
+      let (m, s) = (strip(&mat[i]), strip(&sat[i]));
+      if m != s {
+        return Err(format!(
+          "{label}columns=true: byte {i} ({}:{}) of {text:?}: map() resolves to {m:?}, the covering chunk says {s:?}; mappings={mappings:?} sources={:?}",
+          pos[i].0, pos[i].1, map.map(|m| m.sources().to_vec())
+        ));
+      }
+    }
+  } else {
+    let la = st.line_attr();
+    let mut last = 0;
+    for i in 0..text.len() {
+      let l = pos[i].0;
+      if l == last {
+        continue;
+      }
+      last = l;
+      let want = la.get(&l).map(|a| (a.0.clone(), a.2));
+      let got = mat[i].clone().map(|a| (a.0, a.2));
+      if want != got {
+        return Err(format!(
+          "{label}columns=false: output line {l} of {text:?}: map() resolves to {got:?}, the first mapped chunk starting on that line says {want:?}; mappings={mappings:?}"
+        ));
+      }
+    }
+  }
+  // no map <=> no mapped chunk
+  if map.is_some() != st.any_mapped() {
+    if passthrough_sms(spec) && map.is_some() && !crate::known::strict() {
+      return Ok(true); // known finding K1
+    }
+    return Err(format!(
+      "{label}columns={columns}: map() is {} although the chunk stream has {} mapped chunk; mappings={mappings:?}",
+      if map.is_some() { "Some" } else { "None" },
+      if st.any_mapped() { "a" } else { "no" }
+    ));
+  }
+  Ok(false)
 }
